@@ -363,7 +363,7 @@ mod verif_native {
                 check(&format!("uint8[{size}][]"), json!([Value::Array((0..m).map(|i| json!(i)).collect())]));
             }
         }
-        let json_kinds = [json!(null), json!(true), json!(1), json!(-1), json!(1.5), json!("x"), json!("0x"), json!("0x00"), json!([]), json!([1]), json!({}), json!({"v": 1})];
+        let json_kinds = [json!(null), json!(true), json!(1), json!(-1), json!(1.5), json!("x"), json!("0x"), json!("0x00"), json!("0x0x"), json!("0x0x00"), json!("0X00"), json!("0x0"), json!([]), json!([1]), json!({}), json!({"v": 1})];
         for ty in ["bool", "address", "string", "bytes", "bytes1", "uint8", "int8", "uint8[]", "S", "S[]", "Undefined", "Undefined[]"] {
             for v in &json_kinds {
                 let defs: Defs = vec![dom_def.clone(), d("P", &[("x", ty)]), d("S", &[("v", "uint8")])];
